@@ -126,7 +126,10 @@ def _render(data, fmt, lower):
 
 TITLES = ['', '# dump taken today', 'Drawer dump', 'Enclosure U78D4.ND0.WZS000A', 'dump captured by service',
           'Collected 2024-01-01', 'IO drawer dump', 'Memory dump of ESM A', '--- end ---', 'Begin', 'File: x.txt',
-          'address  data', 'A', 'f', '0x', '; note', '\t', '   ', 'END OF DUMP', 'checksum ok']
+          'address  data', 'A', 'f', '0x', '; note', '\t', '   ', 'END OF DUMP', 'checksum ok',
+          # lines that BEGIN like data without being data: one hex digit and a blank, a sign, a prefix
+          'A dump of the drawer taken from the web interface', ' A', '+A', '-2', '+1F', 'B see above', 'c 1', ' 5',
+          '1 of 3', 'a b', '0 ', 'E\tx', '0x1F', '1_0', 'F:']
 
 
 def _decorate(lines, rng):
